@@ -122,3 +122,11 @@ From RaftProofs Require Import GenTreesAESpec.
 Theorem C02_regenerated_appendEntries_never_succeeds_over_a_failed_store : append_entries_effects_in_order.
 Proof. exact append_entries_effects_in_order_holds. Qed.
 Print Assumptions C02_regenerated_appendEntries_never_succeeds_over_a_failed_store.
+
+(* installSnapshot, every path of the regenerated tree: success is never assigned, and the applied index / last snapshot
+   are not moved, on a path where the stream delivered another number of bytes than req.Size, where closing the snapshot
+   sink failed, or where the FSM's restore reported an error (round-2 seed C02b; removing the `return` after the short
+   read breaks this theorem) *)
+Theorem C02_regenerated_installSnapshot_succeeds_only_after_a_complete_restore : install_snapshot_success_only_after_a_complete_restore.
+Proof. exact install_snapshot_success_only_after_a_complete_restore_holds. Qed.
+Print Assumptions C02_regenerated_installSnapshot_succeeds_only_after_a_complete_restore.
